@@ -41,6 +41,10 @@ def formula_set(tier):
     for t in ar:
         a = ('pred', '>=', t, F.C0)
         fs += [a, ('once', (0, 1), a), ('not', a), ('eventually', (0, 1), a), t]
+    # three operators: a connective over a future-free operand and a bounded-future operand (pastify() delays the former; an unsupported
+    # operator inside the delayed operand must still be rejected)
+    sib = F.sibling_formulas()
+    fs += sib[::4] if tier == 'quick' else sib
     return fs
 
 
